@@ -194,6 +194,44 @@ theorem digestChallenge_wellformed_full_false : ¬ digestChallenge_wellformed_fu
   simp only [Except.ok.injEq, List.cons.injEq, Prod.mk.injEq] at h2
   exact absurd h2.1.2 (by decide)
 
+/-- `_respond_401` calls `www_authenticate` with its default algorithm and qop, which are among the valid ones: the
+    two `raise ValueError` lines of `www_authenticate` cannot be reached through the tool, and what it returns is
+    `digestChallenge` -/
+theorem wwwAuthenticate_defaults (P : Prims) (cfg : DigestCfg) (now : Int) (stale : Bool) :
+    wwwAuthenticate P cfg challengeAlgorithm challengeQop now stale = .ok (digestChallenge P cfg now stale) := by
+  have h1 : validQops.contains challengeQop = true := by decide
+  have h2 : validAlgorithms.contains challengeAlgorithm = true := by decide
+  unfold wwwAuthenticate digestChallenge
+  rw [if_neg (by rw [h1]; simp), if_neg (by rw [h2]; simp)]
+
+/-- the public helper refuses exactly the qop / algorithm names outside `valid_qops` / `valid_algorithms` -/
+theorem wwwAuthenticate_error_iff (P : Prims) (cfg : DigestCfg) (alg qop : Str) (now : Int) (stale : Bool) :
+    (∃ e, wwwAuthenticate P cfg alg qop now stale = .error e) ↔
+      validQops.contains qop = false ∨ validAlgorithms.contains alg = false := by
+  unfold wwwAuthenticate
+  by_cases h1 : validQops.contains qop = true
+  · by_cases h2 : validAlgorithms.contains alg = true
+    · rw [if_neg (by rw [h1]; simp), if_neg (by rw [h2]; simp)]
+      constructor
+      · rintro ⟨e, he⟩; cases he
+      · rintro (h | h)
+        · rw [h1] at h; cases h
+        · rw [h2] at h; cases h
+    · rw [if_neg (by rw [h1]; simp), if_pos h2]
+      exact ⟨fun _ => Or.inr (Bool.eq_false_iff.mpr h2), fun _ => ⟨_, rfl⟩⟩
+  · rw [if_pos h1]
+    exact ⟨fun _ => Or.inl (Bool.eq_false_iff.mpr h1), fun _ => ⟨_, rfl⟩⟩
+
+/-- the constructor's own scheme test (`raise ValueError('Authorization scheme is not "Digest"')`) is never reached
+    through `digest_auth`, which answers such a header with the challenge before constructing anything -/
+theorem parseAuth_not_digest (P : Prims) (h : Str) (hm : digestMatches h = false) :
+    parseAuth P h = .error .valueError ∧
+      ∀ cfg method now, digestAuth P cfg method now (some h) = respond401 P cfg now false := by
+  constructor
+  · simp [parseAuth, hm]
+  · intro cfg method now
+    simp [digestAuth, hm]
+
 /-! ### the Basic challenge -/
 
 def basicChallengeFlds (cfg : BasicCfg) : List Fld :=
